@@ -484,3 +484,24 @@ class SamOracle:
 
     def __exit__(self, *a):
         self.tu.is_sam = self.saved
+
+
+class GenTimeout(Exception):
+    pass
+
+
+def with_timeout(secs, fn, *args):
+    """run fn(*args) in the main thread, abandoning it after `secs` seconds (some generator seeds
+    take a minute); raises GenTimeout"""
+    import signal
+
+    def onalarm(signum, frame):
+        raise GenTimeout()
+
+    old = signal.signal(signal.SIGALRM, onalarm)
+    signal.setitimer(signal.ITIMER_REAL, secs)
+    try:
+        return fn(*args)
+    finally:
+        signal.setitimer(signal.ITIMER_REAL, 0)
+        signal.signal(signal.SIGALRM, old)
